@@ -77,9 +77,13 @@ def parseInput (s : String) : List Bytes × Option (List Bytes) × Wire.RErr :=
   match s.splitOn ";" with
   | [segs, end_] =>
     let items := if segs == "" || segs == "-" then [] else segs.splitOn ","
+    -- `TO`: the read deadline expires at this point of the stream.  An error of the connection is final (the limiter below bufio
+    -- keeps it): for the server the stream ends there with a timeout, whatever the peer sends afterwards
+    let items0 := items
+    let items := items0.takeWhile (· != "TO")
     let plain := items.takeWhile (· != "TLS")
     let tls := (items.dropWhile (· != "TLS")).drop 1
-    let e := if end_ == "timeout" then Wire.RErr.timeout else Wire.RErr.eof
+    let e := if end_ == "timeout" || items0.contains "TO" then Wire.RErr.timeout else Wire.RErr.eof
     (plain.map bytesOfHex, if items.contains "TLS" then some (tls.map bytesOfHex) else none, e)
   | _ => ([], none, .eof)
 
